@@ -103,7 +103,7 @@ def run(ctx):
     def iface():
         for rel, cls in (('crysp/md.py', 'MD4'), ('crysp/sha.py', 'SHA1'), ('crysp/sha.py', 'SHA2'), ('crysp/blake.py', 'Blake')):
             sm = ctx.summ(rel, cls + '.__init__')
-            bs = [x for x in T.walk(('x',) + tuple(v for v in sm.env.values())) if x[0] == 'obj' and any(k == 'blocksize' for k, v in x[2])]
+            bs = [x for x in T.walk(('x',) + tuple(v for v in sm.env.values())) if x[0] == 'obj' and 'blocksize' in T.obj_attrs(x)]
             ctx.check(cls + ' sets blocksize', bool(bs), 'constructor does not set self.blocksize', ctx.where(rel, cls + '.__init__'))
             up = ctx.summ(rel, cls + '.update')
             rets = [e[2] for e in flat_effects(up.effects) if e[0] == 'exit' and e[1] == 'return']
